@@ -123,7 +123,7 @@ def audit_props(prop_file):
     Returns (ok, [(theorem, 'closed' | [axioms])], log)."""
     src = open(os.path.join(COQ, prop_file)).read()
     wanted = re.findall(r'^Print Assumptions (\w+)\.', src, re.M)
-    theorems = re.findall(r'^(?:Theorem|Lemma)\s+(\w+)', src, re.M)
+    theorems = re.findall(r'^\s*(?:Theorem|Lemma)\s+(\w+)', src, re.M)
     rc, out, _ = sh('ulimit -v 12000000; timeout 600 coqc -q -Q . KV -w -notation-overridden %s' % prop_file, cwd=COQ, timeout=630)
     if rc != 0:
         return False, [], out, theorems
